@@ -215,6 +215,9 @@ def run_history(ctx, rng):
     lambdas = est.lambda_vecs_
     preds = est.predictors_
     wobj = RM.error_weights(ds.y)
+    from vf.refs import saddle as RS
+
+    tab = RS.Table(kind, ds, ratio, eps, ExactLearner.hypotheses(ds.X[:, 0], learner.hclass))
     cols = list(lambdas.columns)
     ctx.check(len(cols) == len(preds), "lambda_vecs_and_predictors_differ_in_number", lambdas=len(cols), predictors=len(preds), wit=wit)
     for pos, col in enumerate(cols):
@@ -240,6 +243,12 @@ def run_history(ctx, rng):
                   column=repr(col), fitted_w=p.fit_w_.tolist(), expected_abs_w=np.abs(w).tolist(), wit=wit)
         ctx.check(np.asarray(p.fit_X_).shape[0] == ds.n and bool(np.allclose(np.asarray(p.fit_X_, float)[:, 0], ds.X[:, 0])),
                   "learner_fitted_on_different_features", column=repr(col), wit=wit)
+        # the consequence stated by the property: the exact cost-sensitive learner's output minimises objective + lambda.gamma over H
+        e_h, g_h = tab.of(np.asarray(p.predict(ds.X), float))
+        lv = tab.lam_vec({mapping[e]: float(lam[e]) for e in mom.index})
+        ctx.ev("best_response_consequences_checked")
+        ctx.check(e_h + float(g_h @ lv) <= float((tab.err + tab.G @ lv).min()) + 1e-9, "reweighted_best_response_does_not_minimise_objective_plus_lambda_gamma",
+                  column=repr(col), value=e_h + float(g_h @ lv), minimum_over_class=float((tab.err + tab.G @ lv).min()), wit=wit)
 
 
 def run_history_bgl(ctx, rng, red):
